@@ -253,19 +253,23 @@ Definition ex_valid : list event := boot3 ++ [
   EKill 3; EDrop 1 3; EDrop 2 3;
   ETick 2 200 0 30 [] 0].
 
+Lemma ghost_of c evs wl gl :
+  (match grun c ginit gh0 evs with Some (_, h) => Some (wins h, grants h) | None => None end) = Some (wl, gl) ->
+  exists g gh, grun c ginit gh0 evs = Some (g, gh) /\ wins gh = wl /\ grants gh = gl.
+Proof.
+  destruct (grun c ginit gh0 evs) as [[g gh]|]; [|discriminate].
+  intros H. injection H as <- <-. eauto.
+Qed.
+
 Example ex_valid_ok :
   valid [1;2;3] ex_valid = true /\
   exists g gh, grun cfg_mem ginit gh0 ex_valid = Some (g, gh) /\ wins gh = [(1, 1)] /\
                In (1, 3, 1) (grants gh) /\ In (2, 2, 2) (grants gh).
 Proof.
   split; [vm_compute; reflexivity|].
-  destruct (grun cfg_mem ginit gh0 ex_valid) as [[g gh]|] eqn:E; [|vm_compute in E; discriminate].
-  exists g, gh. split; auto.
-  assert (H : (wins gh, grants gh) = ([(1, 1)], [(2, 2, 2); (1, 3, 1); (1, 2, 2); (1, 1, 1)])).
-  { change (wins gh, grants gh) with
-      (match Some (g, gh) with Some (_, h) => (wins h, grants h) | None => ([], []) end).
-    rewrite <- E. vm_compute. reflexivity. }
-  injection H as -> ->. simpl. auto 10.
+  destruct (ghost_of cfg_mem ex_valid [(1, 1)] [(2, 2, 2); (1, 3, 1); (1, 2, 2); (1, 1, 1)])
+    as (g & gh & E & Ew & Eg); [vm_compute; reflexivity|].
+  exists g, gh. split; [exact E|]. split; [exact Ew|]. rewrite Eg. simpl. auto 10.
 Qed.
 
 (* ---------- C07: what a valid schedule with restarts of journaled voters is ---------- *)
@@ -306,14 +310,6 @@ Definition w_double : list event := boot3 ++ [
 
 Definition w_two_leaders : list event := w_double ++ [EDeliver 3 2 72 0 []].
 
-Lemma ghost_of c evs wl gl :
-  (match grun c ginit gh0 evs with Some (_, h) => Some (wins h, grants h) | None => None end) = Some (wl, gl) ->
-  exists g gh, grun c ginit gh0 evs = Some (g, gh) /\ wins gh = wl /\ grants gh = gl.
-Proof.
-  destruct (grun c ginit gh0 evs) as [[g gh]|]; [|discriminate].
-  intros H. injection H as <- <-. eauto.
-Qed.
-
 Lemma restart_double_vote_refuted :
   exists c evs g gh,
     dyn c = false /\ file_dump c = false /\ file_journal c = true /\
@@ -322,8 +318,10 @@ Lemma restart_double_vote_refuted :
 Proof.
   destruct (ghost_of cfg_journal w_double [(1, 1)] [(1, 3, 2); (1, 2, 2); (1, 3, 1); (1, 1, 1)])
     as (g & gh & E & Ew & Eg); [vm_compute; reflexivity|].
-  exists cfg_journal, w_double, g, gh. repeat split; auto.
-  exists 1, 3, 1, 2. rewrite Eg. simpl. repeat split; auto. discriminate.
+  exists cfg_journal, w_double, g, gh.
+  split; [reflexivity|]. split; [reflexivity|]. split; [reflexivity|].
+  split; [vm_compute; reflexivity|]. split; [exact E|].
+  exists 1, 3, 1, 2. rewrite Eg. simpl. split; [auto|]. split; [auto|]. discriminate.
 Qed.
 
 Lemma two_leaders_after_restart_refuted :
@@ -334,8 +332,10 @@ Lemma two_leaders_after_restart_refuted :
 Proof.
   destruct (ghost_of cfg_journal w_two_leaders [(1, 2); (1, 1)] [(1, 3, 2); (1, 2, 2); (1, 3, 1); (1, 1, 1)])
     as (g & gh & E & Ew & Eg); [vm_compute; reflexivity|].
-  exists cfg_journal, w_two_leaders, g, gh. repeat split; auto.
-  exists 1, 1, 2. rewrite Ew. simpl. repeat split; auto. discriminate.
+  exists cfg_journal, w_two_leaders, g, gh.
+  split; [reflexivity|]. split; [reflexivity|]. split; [reflexivity|].
+  split; [vm_compute; reflexivity|]. split; [exact E|].
+  exists 1, 1, 2. rewrite Ew. simpl. split; [auto|]. split; [auto|]. discriminate.
 Qed.
 
 (* KF-C07-2: voter 3 votes in term 2 (acknowledging term 2), is killed and restarted, and then
@@ -396,7 +396,9 @@ Proof.
   destruct (aget 3 (nodes g1)) as [x|] eqn:Ex; [|discriminate]. injection H1 as H1.
   subst n.
   exists cfg_journal, w_older_a, w_older_b, g1, g2, g3, x, s, 1, 1, (Some (1, 0)), [mkEntry (noop_cmd 9) 2 1].
-  repeat split; auto.
-  - rewrite H1. lia.
-  - rewrite H6. simpl. auto.
+  split; [reflexivity|]. split; [reflexivity|]. split; [reflexivity|].
+  split; [vm_compute; reflexivity|]. split; [reflexivity|]. split; [reflexivity|].
+  split; [exact E2|]. split; [exact H2|]. split; [reflexivity|].
+  split; [rewrite H1; lia|]. split; [exact H4|]. split; [exact H5|].
+  rewrite H6. simpl. auto.
 Qed.
